@@ -200,6 +200,24 @@ func scenarios(thorough bool) []*scenario {
 		text := textgen.CompactLarge(defs)
 		out = append(out, fmtFileScenario(fmt.Sprintf("valid/compact-file-of-%d-bytes", len(text)), text, false))
 	}
+	// files beyond size thresholds a tool might assume (64 KiB, 1 MiB, 4 MiB; 16 MiB in thorough): definitions first and last,
+	// short comment lines between them, so that the text cut at ANY offset inside the padding is still a valid schema
+	sizes := []int{1 << 16, 1 << 20, 1 << 22}
+	if thorough {
+		sizes = append(sizes, 1<<24)
+	}
+	for _, n := range sizes {
+		var b strings.Builder
+		b.WriteString("enum Kind : uint8 {\nA = 1;\nB = 2;\n}\nstruct Head {\nint32 x;\nKind k;\n}\n")
+		line := "// " + strings.Repeat("padding ", 7) + "\n"
+		for b.Len() < n+n/16 {
+			b.WriteString(line)
+		}
+		b.WriteString("message Tail {\n1 -> string s;\n2 -> Head h;\n}\nunion U {\n1 -> struct UA {\nint32 a;\n}\n}\nconst int32 last = 7;\n")
+		big := fmtFileScenario(fmt.Sprintf("valid/padded-file-of-%d-bytes", b.Len()), b.String(), false)
+		big.NoFaults = true
+		out = append(out, big)
+	}
 	if fp := formatFixpoint(schemaValidRaw); fp != "" {
 		out = append(out, fmtFileScenario("valid/already-formatted", fp, false))
 	}
